@@ -2,7 +2,7 @@
 from props import extlib
 
 ID = 'C04'
-COQ_PROPS = 'Props/C04.v'
+COQ_PROPS = ['Props/C04.v', 'Props/C04img.v']
 THEOREMS = ['C04_subset_shape', 'C04_subset_den', 'C04_subset_trailing1_refuted', 'C04_split_pieces', 'C04_split_piece',
             'C04_split_data', 'C04_split_affine']
 ALLOWED_AXIOMS = []
@@ -21,4 +21,8 @@ ASSUMPTIONS = ['image level: the image matches its extension (same shape; slice 
                'key order of the result is not modelled (compared as unordered maps)',
                'the random stream excludes trailing-singleton shapes (X,Y,Z,1)/(X,Y,Z,T,1), where the real code raises KeyError '
                '(open known finding N2, signature subset/trailing-singleton/KeyError; covered by corpus/C04)']
-PARTS = [extlib.SubsetPart, extlib.SplitPart]
+from props import imglib
+PARTS = [extlib.SubsetPart, extlib.SplitPart, imglib.for_property(imglib.ImgSplitPart, 'C04')]
+THEOREMS = list(THEOREMS) + imglib.THEOREMS['Props/C04img.v']
+TRUSTED_BASE = list(TRUSTED_BASE) + imglib.TRUSTED_BASE
+ASSUMPTIONS = list(ASSUMPTIONS) + imglib.ASSUMPTIONS
